@@ -8,6 +8,7 @@ import (
 	"errors"
 	"sort"
 	"strconv"
+	"strings"
 
 	"go.opentelemetry.io/collector/pdata/pcommon"
 
@@ -176,8 +177,11 @@ func (s *Store) SelectLogs(_ context.Context, start, end otelstorage.Timestamp, 
 		out = append(out, logstorage.Record{
 			Timestamp:         pcommon.Timestamp(r.TS),
 			ObservedTimestamp: pcommon.Timestamp(r.TS),
-			Body:              string(r.Line),
-			ResourceAttrs:     otelstorage.Attrs(attrs),
+			// A copy in memory of its own: code that writes through an alias of the line (an
+			// "in place" conversion of a key, say) then changes what the engine returns, not
+			// what the harness compares it with.
+			Body:          strings.Clone(string(r.Line)),
+			ResourceAttrs: otelstorage.Attrs(attrs),
 		})
 	}
 	s.Opened++
